@@ -28,6 +28,7 @@ DefKeyblob(id, lo, hi, key, ctr) == /\ phase = "defs" /\ id \notin KbIds /\ lo >
 \* encrypt / keywrap name a key blob by its ID (not by its position); encrypted data lie inside the blob's range
 KbDom(st) == st.s \in {"encrypt", "keywrap"} =>
                /\ st.kb \in KbIds
+               /\ (st.s = "encrypt" => st.act = (KbOf(st.kb).hi % 4 = 3))                  \* VLD (bit 0) and ADE (bit 1) of the end address
                /\ (st.s = "encrypt" => Eval(st.addr, env) >= KbOf(st.kb).lo /\ Eval(st.addr, env) + Align512(Len(st.data)) <= KbOf(st.kb).hi + 1)
 Stmt(st) == /\ phase = "section" /\ StmtDom(st, env) /\ KbDom(st)
             /\ secs' = [secs EXCEPT ![Len(secs)].cmds = Append(@, Expected(st, env))]
